@@ -15,7 +15,7 @@ RULE = ("bounded-exhaustive bracket sequences: every sequence of N leaves from {
         "non-trivial = program has at least one container and one prepare or measure; distinct = S-expression")
 ASSUMPTIONS = ["programs whose only issue is gates after a trailing unmatched prepare_all are not judged (statement ambiguous)",
                "termination of accepted programs is C08's clause: a step-budget overrun here is inconclusive for C12"]
-TIERS = {"quick": {"shards": 8, "budget_s": 240}, "thorough": {"shards": 16, "budget_s": 480}}
+TIERS = {"quick": {"shards": 8, "budget_s": 480}, "thorough": {"shards": 16, "budget_s": 480}}
 REQUIRE = {"bracket-programs-built-from-S-expressions": 1000, "macro-whose-body-is-a-subcircuit-block": 300, "circuits-grown-between-runs": 500, "two-level-macro-programs:G": 200, "two-level-macro-programs:S": 100, "bracket-programs-through-CircuitBuilder": 150, "built-through-CircuitBuilder": 300, "idle-gate-variants": 2000, "loop-count-overridden-programs": 1000, "object-assembled-programs": 2000, "ref-accept": 500, "ref-reject:measure-without-prepare": 100, "ref-reject:gate-outside-subcircuit": 100,
            "ref-reject:measure-in-loop-closes-earlier-prepare": 50, "states-compared": 500}
 
